@@ -3,11 +3,15 @@
 Nothing here looks at how the child was produced: the parent of every child cell is found
 geometrically, and every clause of C13 is then decided from (parent p, t) and (child p, t) alone.
 
-Arithmetic.  Floats are dyadic rationals.  When every coordinate of parent and child is a multiple
-of 2^-45 of magnitude <= 64 (so a + b needs at most 7 + 45 = 52 bits), all bisection midpoints the library computed (.5 * (a + b)) are exact,
-so the coordinates are scaled to Python integers (object arrays) and every sign / equality below is
-decided exactly ("exact mode").  Otherwise ("tolerance mode", counted by the caller) the same
-formulas run in float64 with a length tolerance  1e-12 * h_cell + 16 ulp(max |coordinate|).
+Arithmetic.  Floats are dyadic rationals.  Let 2^-b be the coarsest power-of-two grid that carries every PARENT
+coordinate.  When the parent coordinates, counted in units of that grid, stay below 2^52 in magnitude (scale and
+offset do not matter: 2^-30-sized cells and cells of size 2^-6 at 2^24 qualify alike), every sum a + b of two
+parent coordinates is an exact double, hence so is every bisection midpoint .5 * (a + b) a correct library
+computes; all coordinates of parent and child are then scaled to Python integers (object arrays) on their
+common grid and every sign / equality below is decided exactly ("exact mode").  The child needs no condition:
+whatever doubles it holds are dyadic rationals, and if they are not the exact midpoints the exact predicates say
+so.  Otherwise ("tolerance mode", counted by the caller) the same formulas run in float64 with a length
+tolerance  1e-12 * h_cell + 16 ulp(max |coordinate|).
 
 All determinants are "d! * signed measure"; the barycentric *numerators* of a point x w.r.t. a cell K
 are  N_m(x) = sign(det K) * det(K with vertex m replaced by x)  (>= 0 inside, = 0 on the facet
@@ -19,34 +23,44 @@ import itertools
 
 import numpy as np
 
-FRAC_BITS = 45
-COORD_MAX = 64.0
+MANT_BITS = 52          # parent coordinates < 2^52 grid units: sums of two are exact doubles
+MAX_EXTRA_BITS = 900    # child grid finer than the parent's by more than this: ldexp would overflow, use tolerances
 
 
 # --------------------------------------------------------------------- arithmetic
-def min_bits(*arrays):
-    """Smallest b <= FRAC_BITS such that all coordinates * 2^b are integers, or None."""
-    for P in arrays:
-        if P.size and (not np.isfinite(P).all() or np.abs(P).max() > COORD_MAX):
+def grid_bits(P):
+    """Smallest b (possibly negative) such that every entry of P is an integer multiple of 2^-b."""
+    x = np.asarray(P, dtype=float)
+    x = x[x != 0]
+    if not x.size:
+        return None
+    m, e = np.frexp(x)                                   # x = m * 2^e, .5 <= |m| < 1, m * 2^53 an integer
+    M = np.abs(np.ldexp(m, 53)).astype(np.int64)
+    low = (M & -M).astype(np.float64)                    # lowest set bit, a power of two: log2 exact
+    tz = np.log2(low).astype(np.int64)
+    return int((53 - tz - e.astype(np.int64)).max())
+
+
+def min_bits(Pp, Pc):
+    """Number of fractional bits of the common grid of parent and child coordinates if the parent qualifies for
+    exact mode (see module docstring), else None."""
+    for P in (Pp, Pc):
+        if P.size and not np.isfinite(P).all():
             return None
-    lo = 0
-    for P in arrays:
-        if not P.size:
-            continue
-        b = lo
-        while b <= FRAC_BITS:
-            S = P * 2.0 ** b
-            if np.array_equal(S, np.round(S)):
-                break
-            b += 1
-        if b > FRAC_BITS:
-            return None
-        lo = b
-    return lo
+    bp = grid_bits(Pp)
+    if bp is None:                       # all parent coordinates zero
+        bp = 0
+    if float(np.abs(Pp).max(initial=0.0)) * 2.0 ** min(bp, 1000) >= 2.0 ** MANT_BITS or bp > 1000:
+        return None
+    bc = grid_bits(Pc)
+    bits = bp if bc is None else max(bp, bc)
+    if bits - bp > MAX_EXTRA_BITS:
+        return None
+    return bits
 
 
 def to_int(P, bits):
-    S = (np.asarray(P, dtype=float) * 2.0 ** bits)
+    S = np.ldexp(np.asarray(P, dtype=float), bits)
     out = np.empty(S.size, dtype=object)
     out[:] = [int(v) for v in S.ravel().tolist()]
     return out.reshape(S.shape)
